@@ -78,6 +78,18 @@ class UModel(Model):
     def primitive(self, it, fr, n, callee, depth):
         name = callee['n']
         obj, args = it.call_args(fr, n)
+        if obj is None and strip_targs(callee.get('q') or '') in ('std::find', 'std::distance', 'std::next'):
+            vals = [it.ev(fr, a, depth) for a in args]
+            if name == 'find' and len(vals) == 3 and isinstance(vals[0], Pos) and isinstance(vals[1], Pos) and isinstance(vals[2], int):
+                for k in range(vals[0].k, min(vals[1].k, len(self.cell))):
+                    if self.char(self.cell[k]) == vals[2]:
+                        return Pos(k)
+                return Pos(vals[1].k)
+            if name == 'distance' and len(vals) == 2 and isinstance(vals[0], Pos) and isinstance(vals[1], Pos):
+                return vals[1].k - vals[0].k
+            if name == 'next' and vals and isinstance(vals[0], Pos):
+                return Pos(vals[0].k + (vals[1] if len(vals) > 1 and isinstance(vals[1], int) else 1))
+            raise AnalysisBroken('unescape table: %s with these arguments is outside the model at %s' % (name, fr.f.loc(n)))
         if obj is not None and self.is_buf(obj):
             vals = [it.ev(fr, a, depth) for a in args]
             if name == 'clear':
@@ -94,8 +106,21 @@ class UModel(Model):
                 return TOP
             elif name == 'operator[]' and vals and isinstance(vals[0], int):
                 return self.buf[vals[0]] if 0 <= vals[0] < len(self.buf) else 0
-            elif name in ('append', 'operator+=') and vals and isinstance(vals[0], int):
+            elif name in ('append', 'operator+=') and len(vals) == 1 and isinstance(vals[0], int):
                 self.buf.append(vals[0])
+            elif name in ('append', 'assign', 'insert') and len(vals) in (2, 3) and isinstance(vals[-2], Pos) and isinstance(vals[-1], (Pos, int)) \
+                    and (len(vals) == 2 or isinstance(vals[0], Sym)):
+                # a run of the cell copied at once: (first, last) or (first, count); insert(end(), first, last) likewise
+                a = vals[-2].k
+                b = vals[-1].k if isinstance(vals[-1], Pos) else a + vals[-1]
+                if not 0 <= a <= b <= len(self.cell):
+                    self.oob = self.oob or ('copies the cell range [%d, %d) of %d' % (a, b, len(self.cell)))
+                    b = max(a, min(b, len(self.cell)))
+                if name == 'assign':
+                    self.buf = []
+                self.buf.extend(self.char(c) for c in self.cell[a:b])
+            elif name in ('end', 'cend'):
+                return Sym('BUFEND')
             else:
                 raise AnalysisBroken('unescape table: operation %s on the output buffer is outside the model at %s' % (name, fr.f.loc(n)))
             return TOP
@@ -148,9 +173,15 @@ def run_one(prog, f, cell, buf_member):
     return res, model.oob
 
 
-def check(prog, rep, rule, floor=30):
+# cells that are NOT well-formed RFC 4180 (a lone quote inside a quoted field): the RFC gives no value, but the memory and the stream reader
+# must still give the same one (C10)
+MALFORMED = ['"a"b"', '"a"b"c"', '"a"b""c"', '"a""b"c"', '"x"y"z"w"', '""a"', '"a"""b"c"']
+
+
+def check(prog, rep, rule, floor=30, twins=False):
     rep.rule(rule, 'CSV UnescapeValue (memory and stream reader) executed over quoted cells with runs of 1-4 quotes at the start, middle and '
                    'end: the cell "<text with every quote doubled>" yields exactly <text>', floor=floor)
+    per_reader = {}
     for cls in ('CCsvStringReader', 'CCsvStreamReader'):
         fs = [f for f in prog.funcs.values() if f.q == NS + cls + '::UnescapeValue' and f.body is not None]
         if len(fs) != 1:
@@ -166,6 +197,7 @@ def check(prog, rep, rule, floor=30):
             rep.defer_broken('%s: %s::UnescapeValue does not use exactly one string member as its output buffer (%s)' % (rule, cls, sorted(members)))
             continue
         buf_member = members.pop()
+        per_reader[cls] = (f, buf_member)
         for text in ORIGINALS:
             cell = '"' + text.replace('"', '""') + '"'
             res, oob = run_one(prog, f, cell, buf_member)
@@ -179,3 +211,13 @@ def check(prog, rep, rule, floor=30):
                 rep.finding(rule, '%s|wrong value' % cls, f.loc(),
                             '%s::UnescapeValue turns the cell %r into %s, RFC 4180 gives %r (every pair of quotes inside the field stands for one quote)'
                             % (cls, cell, ('%r' % got[1]) if got[0] == 'value' else 'an exception (%s)' % got[-1], text), func=f.id)
+    if twins and len(per_reader) == 2:
+        (fa, ba), (fb, bb) = per_reader['CCsvStringReader'], per_reader['CCsvStreamReader']
+        for cell in MALFORMED:
+            ra, _ = run_one(prog, fa, cell, ba)
+            rb, _ = run_one(prog, fb, cell, bb)
+            if ra == rb:
+                rep.ok(rule, 'twins|%r' % cell, sample={'cell': cell, 'both_readers': ra[0][1] if ra else None} if cell == MALFORMED[1] else None)
+            else:
+                rep.finding(rule, 'twins|lone quote inside a quoted field', fb.loc(), 'the cell %r (a lone quote inside a quoted field) is read as %r from memory and as %r '
+                            'from a stream' % (cell, ra[0][1] if ra else None, rb[0][1] if rb else None), func=fb.id)
